@@ -22,10 +22,13 @@ fn vmstk_kb() -> u64 {
 /// the exact set of turn-start (board, side) pairs and only ends a turn on a position never seen
 /// before (and different from the turn start), so the game is legal under the repetition rules
 /// without asking the engine to scan its O(L) history every turn.
-fn play_long(turns: u64, seed: u64) -> Result<(GameState, GameState, Value), String> {
+fn play_long(turns: u64, seed: u64) -> Result<(GameState, GameState, GameState, Value), String> {
     let mut rng = Rng::new(seed, 0x2000);
     let b0 = gen::long_game_position();
     let mut g = inject(&b0, true, 2);
+    // the same game played a second time, action by action: an equal state whose history list is a
+    // separate object (not a clone sharing nodes)
+    let mut twin = inject(&b0, true, 2);
     let mut board = b0;
     let mut gold = true;
     let mut seen: HashSet<(u64, u64)> = HashSet::new();
@@ -85,6 +88,10 @@ fn play_long(turns: u64, seed: u64) -> Result<(GameState, GameState, Value), Str
                 spot_checks += 1;
             }
             cur = cur.take_action(&Action::Pass);
+            for c in &acts {
+                twin = twin.take_action(&code_act(*c));
+            }
+            twin = twin.take_action(&Action::Pass);
             if acts.len() > 1 {
                 multi_step_turns += 1;
             }
@@ -107,12 +114,44 @@ fn play_long(turns: u64, seed: u64) -> Result<(GameState, GameState, Value), Str
         return Err(format!("history was not built: hash_history().len() = {} after {} turns", hist_len, turns));
     }
     let mid = mid.unwrap_or_else(|| g.clone());
-    Ok((g, mid, info))
+    Ok((g, mid, twin, info))
 }
 
 /// The operations the property names: query, clone, drop.
-fn exercise(g: GameState, mid: GameState, unwind: bool) -> Value {
+/// Every query on one state, plus comparison / hashing against an equal state with a separately built history.
+fn probe(cur: &GameState, twin: &GameState) -> u32 {
+    use std::hash::{Hash, Hasher};
+    let _ = (cur.valid_actions().len(), cur.valid_actions_no_rep().len(), cur.is_terminal(), cur.has_move(cur.piece_board()), cur.can_pass(true), cur.can_pass(false), cur.transposition_hash(), cur.to_string().len());
+    for a in cur.valid_actions() {
+        let _ = cur.trapped_animal_for_action(&a);
+    }
+    if cur.is_play_phase() {
+        for i in 0..=cur.current_step() {
+            let _ = cur.piece_board_for_step(i).all_pieces;
+        }
+    }
+    let mut n = 0u32;
+    if cur == twin {
+        n += 1;
+    }
+    let (mut h1, mut h2) = (std::collections::hash_map::DefaultHasher::new(), std::collections::hash_map::DefaultHasher::new());
+    cur.hash(&mut h1);
+    twin.hash(&mut h2);
+    if h1.finish() == h2.finish() {
+        n += 1;
+    }
+    let mut set: HashSet<GameState> = HashSet::new();
+    set.insert(cur.clone());
+    if set.contains(twin) {
+        n += 1;
+    }
+    n
+}
+
+fn exercise(g: GameState, mid: GameState, twin: GameState, unwind: bool) -> Value {
     let before = vmstk_kb();
+    let mut twin_agreements = probe(&g, &twin);
+    let mut twin_probes = 1u32;
     let n_actions = g.valid_actions().len();
     let n_norep = g.valid_actions_no_rep().len();
     let term = g.is_terminal().is_some();
@@ -148,6 +187,7 @@ fn exercise(g: GameState, mid: GameState, unwind: bool) -> Value {
     let mut mid_turn_queries = 0u32;
     {
         let mut cur = g.clone();
+        let mut cur2 = twin.clone();
         for _ in 0..3 {
             let acts = cur.valid_actions_no_rep();
             let pick = acts.iter().find(|a| matches!(a, Action::Move(s, _) if cur.piece_board().piece_type_at_square(s).map_or(false, |p| p != Piece::Rabbit) && cur.trapped_animal_for_action(a).is_none()));
@@ -156,7 +196,10 @@ fn exercise(g: GameState, mid: GameState, unwind: bool) -> Value {
                 None => break,
             };
             cur = cur.take_action(&a);
+            cur2 = cur2.take_action(&a);
             let _ = (cur.valid_actions().len(), cur.is_terminal(), cur.can_pass(true), cur.has_move(cur.piece_board()), cur.transposition_hash(), cur.to_string().len());
+            twin_agreements += probe(&cur, &cur2);
+            twin_probes += 1;
             mid_turn_queries += 1;
         }
         if cur.current_step() == 3 && cur.valid_actions().contains(&Action::Pass) {
@@ -165,11 +208,43 @@ fn exercise(g: GameState, mid: GameState, unwind: bool) -> Value {
             mid_turn_queries += 1;
         }
     }
+    // step away and straight back: the board equals the turn-start position (pass allowed by the rules
+    // alone, withheld by the repetition rules), at steps 2 and - after another step - 3
+    let mut step_back_states = 0u32;
+    {
+        let acts = g.valid_actions();
+        for a in acts.iter().take(40) {
+            if let Action::Move(s, d) = a {
+                if g.piece_board().piece_type_at_square(s) == Some(Piece::Rabbit) || g.trapped_animal_for_action(a).is_some() {
+                    continue;
+                }
+                let one = g.take_action(a);
+                let back = one.valid_actions_no_rep().into_iter().find(|b| matches!(b, Action::Move(s2, _) if decode_board(one.piece_board()).0[s2.index() as usize] != 0) && decode_board(one.take_action(b).piece_board()) == decode_board(g.piece_board()));
+                let _ = (s, d);
+                if let Some(b) = back {
+                    let two = one.take_action(&b);
+                    let two2 = twin.take_action(a).take_action(&b);
+                    twin_agreements += probe(&two, &two2);
+                    twin_probes += 1;
+                    step_back_states += 1;
+                    if let Some(c) = two.valid_actions().first() {
+                        let three = two.take_action(c);
+                        twin_agreements += probe(&three, &two2.take_action(c));
+                        twin_probes += 1;
+                    }
+                    if step_back_states >= 3 {
+                        break;
+                    }
+                }
+            }
+        }
+    }
     // a state with a pending push on top of the long history (wander on for a few turns until a push
     // start is offered), queried before and after the completion
     let mut pending_push_queried = false;
     {
         let mut cur = g.clone();
+        let mut cur2 = twin.clone();
         'outer: for k in 0..300u32 {
             let acts = cur.valid_actions();
             if acts.is_empty() || (cur.current_step() == 0 && cur.is_terminal().is_some()) {
@@ -184,6 +259,11 @@ fn exercise(g: GameState, mid: GameState, unwind: bool) -> Value {
                         let after = cur.take_action(a);
                         if matches!(after.unwrap_play_phase().push_pull_state(), PushPullState::MustCompletePush(..)) {
                             let _ = (after.valid_actions().len(), after.valid_actions_no_rep().len(), after.is_terminal(), after.has_move(after.piece_board()), after.can_pass(true), after.transposition_hash(), after.to_string().len());
+                            // the same pending-push state on the separately built twin history: ==, Hash, HashSet probe
+                            let after2 = cur2.take_action(a);
+                            twin_agreements += probe(&after, &after2);
+                            twin_agreements += probe(&after2, &after);
+                            twin_probes += 2;
                             if let Some(c) = after.valid_actions().first() {
                                 let done = after.take_action(c);
                                 let _ = (done.valid_actions().len(), done.is_terminal());
@@ -199,8 +279,11 @@ fn exercise(g: GameState, mid: GameState, unwind: bool) -> Value {
                 continue;
             }
             cur = cur.take_action(&pick);
+            cur2 = cur2.take_action(&pick);
         }
     }
+    let twin_hist = twin.unwrap_play_phase().hash_history().len();
+    drop(twin); // last owner of the second long list
     let c = g.clone();
     drop(c);
     // a successor shares the history; dropping the predecessor must not free it
@@ -267,7 +350,7 @@ fn exercise(g: GameState, mid: GameState, unwind: bool) -> Value {
         drop(mid);
     }
     let after = vmstk_kb();
-    json!({"vmstk_before_kb": before, "vmstk_mid_kb": mid_vm, "vmstk_after_newer_half_kb": after_newer, "vmstk_after_kb": after, "valid_actions": n_actions, "valid_actions_no_rep": n_norep, "terminal": term, "can_pass": cp, "has_move": hm, "printed_len": text_len, "hash": format!("{:#018x}", hash), "eq_mid": eq, "history_len": hl, "history_iter_count": hcount, "history_head": hhead.map(|h| format!("{:#018x}", h)), "tail_len": tail_len, "tail_iter_count": tail_iter_count, "tail_chain_len": tail_chain_len, "iterator_dropped_after": partial_iter, "mid_turn_query_rounds": mid_turn_queries, "pending_push_state_queried": pending_push_queried, "bytes_formatted_by_trace_logger": crate::eng::LOGGED_BYTES.load(std::sync::atomic::Ordering::Relaxed), "mid_state_valid_actions": mid_actions, "mid_state_history_len": mid_hist, "capture_after_long_stretch_taken": capture_taken, "extra_steps_before_capture": extra_steps, "dropped_during_unwinding": unwound})
+    json!({"vmstk_before_kb": before, "vmstk_mid_kb": mid_vm, "vmstk_after_newer_half_kb": after_newer, "vmstk_after_kb": after, "valid_actions": n_actions, "valid_actions_no_rep": n_norep, "terminal": term, "can_pass": cp, "has_move": hm, "printed_len": text_len, "hash": format!("{:#018x}", hash), "eq_mid": eq, "history_len": hl, "history_iter_count": hcount, "history_head": hhead.map(|h| format!("{:#018x}", h)), "tail_len": tail_len, "tail_iter_count": tail_iter_count, "tail_chain_len": tail_chain_len, "iterator_dropped_after": partial_iter, "mid_turn_query_rounds": mid_turn_queries, "pending_push_state_queried": pending_push_queried, "bytes_formatted_by_trace_logger": crate::eng::LOGGED_BYTES.load(std::sync::atomic::Ordering::Relaxed), "mid_state_valid_actions": mid_actions, "mid_state_history_len": mid_hist, "capture_after_long_stretch_taken": capture_taken, "extra_steps_before_capture": extra_steps, "dropped_during_unwinding": unwound, "twin_history_len": twin_hist, "twin_probes": twin_probes, "twin_agreements_of_3_per_probe": twin_agreements, "step_back_states_queried": step_back_states})
 }
 
 /// A state whose history list has `n` entries, built with the public constructors (cheap way to
@@ -345,8 +428,8 @@ pub fn child(args: &[String]) -> i32 {
     let mode_owned = mode.to_string();
     let run = move || -> Result<Value, String> {
         let mode = mode_owned.as_str();
-        let (g, mid, mut info) = play_long(turns, seed)?;
-        let ex = exercise(g, mid, mode != "main");
+        let (g, mid, twin, mut info) = play_long(turns, seed)?;
+        let ex = exercise(g, mid, twin, mode != "main");
         info["exercise"] = ex;
         Ok(info)
     };
@@ -477,6 +560,11 @@ pub fn c20(cfg: &Cfg) -> i32 {
             if j["exercise"]["capture_after_long_stretch_taken"].as_bool() == Some(true) {
                 sink.count("runs_with_capture_after_long_stretch");
             }
+            sink.add("twin_history_probes_eq_hash_hashset", j["exercise"]["twin_probes"].as_u64().unwrap_or(0));
+            sink.add("twin_history_probe_agreements", j["exercise"]["twin_agreements_of_3_per_probe"].as_u64().unwrap_or(0));
+            if j["exercise"]["step_back_states_queried"].as_u64().unwrap_or(0) > 0 {
+                sink.count("runs_with_step_back_states_queried");
+            }
             if j["exercise"]["pending_push_state_queried"].as_bool() == Some(true) {
                 sink.count("runs_with_pending_push_state_queried");
             }
@@ -541,7 +629,7 @@ pub fn c20(cfg: &Cfg) -> i32 {
         evaluations_counter: "children_run",
         rule: "W13: child processes play L legal capture-free turns from an open position (steps from valid_actions_no_rep(), repetition legality kept by the harness' exact position set and spot-checked against valid_actions() every 10 000 turns; hash_history().len() must equal L+1), then query (action lists, result, can_pass, has_move, printing, hash, ==, history len/iter/head/tail), clone, take_action + pass, and drop the state while a clone of the state at turn L/2 is still alive, then query mid-turn states at steps 1-3 incl. a pass at step 3 and a state with a pending push (a `log` logger at Trace level that formats every record is installed), then make a capture (the engine starts a fresh history and lets go of the old one inside take_action), then query that older state and discard it - in the thread-mode children while the owning 2 MiB thread unwinds from a deliberate panic (Debug formatting is not exercised: the derived Debug of a linked list is recursive by construction and is not one of the queries the property lists). Observer 1: the whole run on a thread with the default 2 MiB stack must exit 0. Observer 2: on the main thread with an unlimited stack the growth of VmStk over the query/clone/drop block at L = 400 000 must not exceed the growth at L = 1 000 by 128 kB. Observer 3: 2-4 threads that are the only owners of one long history drop it at the same instant (spin barrier): children with 300 000-entry histories on 2 MiB threads must survive, and drop probes must show no growth of the stack span between 500 and 4 000 nodes. Observers 1-2 and the children of 3 run in the monitor profile and in plain release. distinct_nontrivial = distinct (L, seed, profile, observer) child runs that completed.".into(),
         assumptions: vec!["'for all lengths' is restated as L up to 4*10^5 (quick) / 2*10^6 (thorough) (quick: 4*10^5, thorough: 3*10^6) plus no measurable stack growth between L = 10^3 and L = 4*10^5".into(), "a child that dies for another reason (OOM, external signal) makes the run inconclusive".into()],
-        floors: vec![floor("survival_runs_held", 0, 0), floor("vmstk_comparisons", 1, 1), floor("simultaneous_probe_drop_rounds", 500, 5000), floor("concurrent_drop_runs_held", 0, 0), floor("runs_with_capture_after_long_stretch", 4, 8), floor("runs_with_last_owner_dropped_during_unwinding", 2, 4), floor("runs_with_pending_push_state_queried", 4, 8), floor("longest_history_reached", 400_001, 3_000_001)],
+        floors: vec![floor("survival_runs_held", 0, 0), floor("vmstk_comparisons", 1, 1), floor("simultaneous_probe_drop_rounds", 500, 5000), floor("concurrent_drop_runs_held", 0, 0), floor("runs_with_capture_after_long_stretch", 4, 8), floor("runs_with_last_owner_dropped_during_unwinding", 2, 4), floor("runs_with_pending_push_state_queried", 4, 8), floor("runs_with_step_back_states_queried", 4, 8), floor("twin_history_probes_eq_hash_hashset", 20, 40), floor("longest_history_reached", 400_001, 3_000_001)],
         level: "exploration",
         exhaustive: None,
         extra,
